@@ -123,7 +123,7 @@ def run_check(pid: str, tier: str, base_seed: int, engine: Any, arg: Dict[str, A
                 exit_code = runner.EXIT_HARNESS
 
     # same seeds in a fresh interpreter under another PYTHONHASHSEED: same event logs?
-    hs_n = arg.get("hashseed_slice", 8 if tier == "quick" else 64)
+    hs_n = arg.get("hashseed_slice", getattr(engine, "HASHSEED_SLICE", {}).get(tier, 8 if tier == "quick" else 64))
     hs_seeds = [r["seed"] for r in good[:hs_n]]
     hs_compared = 0
     if hs_seeds and not os.environ.get("VERIF_NO_HASHSEED_CHECK"):
